@@ -166,7 +166,7 @@ class OperatorIndexer:
 
     def replace(self, key: Key, obj: object) -> None:
         """ Store/merge the object's indexing results. """
-        obj = obj if isinstance(obj, collections.abc.Mapping) else {None: obj}
+        obj = obj if type(obj) is dict else {None: obj}  # strictly dicts, as documented.
         self.index._replace(key, obj)
 
 
